@@ -142,6 +142,17 @@ def robustEngine (j : Json) : R Json := do
         ("points", Json.num (Int.ofNat (fin.rows.foldl (· + ·) 0))),
         ("offset", Json.num (Int.ofNat fin.offset)),
         ("dead", Json.bool fin.dead)])
+  | "crosshift" =>
+      -- one CROSSHIFT(value, cutoff, interval): what the statement-order program does with the two durations
+      let cutoff ← int j "cutoff"
+      let interval ← int j "interval"
+      let (name, n) : String × Nat := match Cross.crosshift maxCrosshiftFields Cross.canonical cutoff interval with
+        | .error => ("error", 0)
+        | .fields n => ("fields", n)
+        | .diverges => ("diverges", 0)
+        | .wraps => ("wraps", 0)
+        | .divZero => ("divZero", 0)
+      pure (Json.mkObj [("outcome", Json.str name), ("n", Json.num (Int.ofNat n))])
   | op => throw s!"robust: unknown op {op}"
 
 end Zeno.Drv
